@@ -1,4 +1,86 @@
+import CharonV.Model.Provide
 import Driver.Common
 
--- placeholder until the C19 model driver is written
-def main : IO Unit := Driver.runLoop (fun (s : Unit) (_ : String) => (s, "bad-op")) ()
+/-
+Line driver for the provide/submit model (C19). One op = one complete call:
+
+  call <p|s> sf=<0|1> P=<nodes> F=<nodes|-> ev=<events|->
+
+node  = <class><variant><h|i>   class ∈ ok nk to sy bg er ; variant = one digit (which concrete
+        error/value the Go driver uses, irrelevant to the model) ; h = worker honours its context
+event = p<i> | f<i> | x
+
+output: <result> n=<events consumed> fb=<0|1>
+result: ok:<p|f><i> | nok:<p|f><i> | err:<p|f><i>:<class> | ctx | bug | stuck   (submit: ok | err:… | ctx | bug | stuck)
+-/
+open CharonV.Provide
+
+namespace Driver.Provide
+
+def parseNode (s : String) : Option Node :=
+  match s.toList with
+  | [a, b, v, h] =>
+    if !v.isDigit then none else
+    let out : Option Outcome :=
+      match String.ofList [a, b] with
+      | "ok" => some .ok | "nk" => some .nok | "to" => some .timeout
+      | "sy" => some .syncing | "bg" => some .badgw | "er" => some .other
+      | _ => none
+    let hon : Option Bool := if h == 'h' then some true else if h == 'i' then some false else none
+    match out, hon with
+    | some o, some hn => some ⟨o, hn⟩
+    | _, _ => none
+  | _ => none
+
+def parseNodes (s : String) : Option (List Node) :=
+  if s == "-" then some [] else (s.splitOn ",").mapM parseNode
+
+def parseEv (s : String) : Option Ev :=
+  match s.toList with
+  | ['x'] => some .cancel
+  | 'p' :: rest => (String.ofList rest).toNat?.map (fun i => Ev.rel false i)
+  | 'f' :: rest => (String.ofList rest).toNat?.map (fun i => Ev.rel true i)
+  | _ => none
+
+def parseEvs (s : String) : Option (List Ev) :=
+  if s == "-" then some [] else (s.splitOn ",").mapM parseEv
+
+def clsStr : Outcome → String
+  | .ok => "ok" | .nok => "nk" | .timeout => "to" | .syncing => "sy" | .badgw => "bg" | .other => "er"
+
+def grp (fb : Bool) : String := if fb then "f" else "p"
+
+def resStr (submit : Bool) : Res → String
+  | .okFrom fb i => if submit then "ok" else s!"ok:{grp fb}{i}"
+  | .nokFrom fb i => if submit then "ok" else s!"nok:{grp fb}{i}"
+  | .errFrom fb i c => s!"err:{grp fb}{i}:{clsStr c}"
+  | .ctxErr => "ctx"
+  | .bug => "bug"
+  | .stuck => "stuck"
+
+def dropPrefix (pre s : String) : Option String :=
+  if s.startsWith pre then some (s.drop pre.length).toString else none
+
+def step (u : Unit) (line : String) : Unit × String :=
+  match line.splitOn " " with
+  | ["call", style, sf, p, f, ev] =>
+    match dropPrefix "sf=" sf, dropPrefix "P=" p, dropPrefix "F=" f, dropPrefix "ev=" ev with
+    | some sfv, some ps, some fs, some es =>
+      match parseNodes ps, parseNodes fs, parseEvs es with
+      | some prim, some fb, some evs =>
+        if style != "p" && style != "s" then (u, "bad-op") else
+        if sfv != "0" && sfv != "1" then (u, "bad-op") else
+        let submitStyle := style == "s"
+        -- a submit work function has no output to reject
+        if submitStyle && (sfv == "1" || (prim ++ fb).any (fun n => n.out == .nok)) then (u, "bad-op") else
+        let sc : Scen := { prim := prim, fb := fb, sf := sfv == "1" }
+        let r := if submitStyle then submit sc evs else provide sc evs
+        let usedFb := usedFallback { sc with sf := if submitStyle then false else sc.sf } evs
+        (u, s!"{resStr submitStyle r.1} n={r.2} fb={if usedFb then 1 else 0}")
+      | _, _, _ => (u, "bad-op")
+    | _, _, _, _ => (u, "bad-op")
+  | _ => (u, "bad-op")
+
+end Driver.Provide
+
+def main : IO Unit := Driver.runLoop Driver.Provide.step ()
